@@ -198,7 +198,9 @@ def cases(tier, seed):
         for i0 in range(0, len(args), 40):
             out.append({"k": "index", "D": D, "i0": i0, "i1": min(len(args), i0 + 40)})
     out.append({"k": "truncate"})
-    out.append({"k": "monomial"})
+    for D in (1, 2, 3):
+        for ct in (1, math.inf, 0.5, 0):
+            out.append({"k": "monomial", "D": D, "ct": "inf" if ct == math.inf else ct})
     if tier == "thorough":
         for name in CPU_CONFIGS:
             out.append({"k": "dispatch", "cfg": name})
@@ -355,14 +357,30 @@ def run_case(case, R):
                     if bad:
                         R.fail("cross_truncate", "wrong-value", f"grid [0,4)^{d} scalar bound={b} norm={q}: {bad[:5]}", tags=[f"d={d}"])
     elif k == "monomial":
-        for D in (1, 2, 3):
+        for D in (case["D"],):
             names = ("q0", "q1", "q2")[:D]
             for start, stop in list(index_args(D, 3)):
-                for ct in (1, math.inf, 0.5, 0):
+                for ct in (math.inf if case["ct"] == "inf" else case["ct"],):
                     for graded, reverse in FLAGS:
                         sure, amb = ref_glexindex(start, stop, D, ct, graded, reverse)
                         if amb:
                             continue
+                        # with a per-dimension bound the number of indeterminates may be left to the bounds (dimensions omitted), and
+                        # the names may be given instead of a number
+                        for dform in (["int"] + (["omitted"] if isinstance(start, list) or isinstance(stop, list) else []) + (["names"] if graded and not reverse else [])):
+                            if dform == "int":
+                                continue
+                            R.tr()
+                            kw = {} if dform == "omitted" else {"dimensions": names}
+                            lab2 = f"monomial({start}, {stop}, dimensions {dform}, cross_truncation={ct}, graded={graded}, reverse={reverse})"
+                            try:
+                                alt = numpoly.monomial(start, stop, cross_truncation=ct, graded=graded, reverse=reverse, **kw)
+                                ref_ = numpoly.monomial(start, stop, dimensions=D, cross_truncation=ct, graded=graded, reverse=reverse)
+                                if sure and (wellformed(alt) or tuple(alt.names) != tuple(ref_.names) or alt.shape != ref_.shape or alpha(alt) != alpha(ref_)):
+                                    R.fail("monomial", "wrong-value", f"{lab2}: {str(alt)[:120]} with names {alt.names}, with dimensions={D}: {str(ref_)[:120]}", tags=[f"D={D}", f"dimensions={dform}"])
+                            except Exception as err:  # noqa: BLE001
+                                if sure:
+                                    R.fail("monomial", "exception", f"{lab2}: {type(err).__name__}: {err}", tags=[f"D={D}", f"dimensions={dform}"])
                         R.tr()
                         lab = f"monomial({start}, {stop}, dimensions={D}, cross_truncation={ct}, graded={graded}, reverse={reverse})"
                         try:
@@ -387,7 +405,7 @@ def run_case(case, R):
                         if not isinstance(got, numpoly.ndpoly) or wellformed(got) or alpha(got) != exp or tuple(got.names) != names:
                             R.fail("monomial", "wrong-value", f"{lab}: got {got!r}"[:300], tags=[f"D={D}"])
                         R.state(("mono", D, str(start), str(stop), ct, graded, reverse))
-        for nm, want in ((("q2", "q4"), ("q2", "q4")), ("q3", ("q3",))):
+        for nm, want in ((("q2", "q4"), ("q2", "q4")), ("q3", ("q3",))) if (case["D"], case["ct"]) == (1, 1) else ():
             R.tr()
             got = numpoly.monomial(0, 3, dimensions=nm)
             if tuple(got.names) != want:
